@@ -310,6 +310,48 @@ example : (runStarts (exCfg true) exDir [(Args.empty, exFresh), (exArgs, exFresh
 example : (start (exCfg true) [] Args.empty exFresh).out
     = .ok ⟨List.replicate 20 0x55, List.replicate 32 0x66, List.replicate 24 0x88, 0⟩ := by decide
 
+/-! ### presented = persisted = next -/
+
+/-- **what a start presents = what it leaves in the state directory = what the next plain start
+    presents** — for EVERY successful start: any directory (empty: first start, generated
+    identity; or holding a state file), any arguments (none, an IAT override, an explicit
+    identity), both disciplines.  The identity this start runs with and advertises (`Args()`:
+    cert and iat-mode) is the one the state file it leaves recovers to, the bridge-line file it
+    leaves is the one for that identity, and a following start without arguments presents
+    exactly the same. -/
+theorem presented_eq_persisted_eq_next (cfg : Cfg) (d : Dir) (a : Args) (fresh : JS) (i : Ident)
+    (hfp : q ∉ fresh.pub) (hok : (start cfg d a fresh).out = .ok i) :
+    recover (run d (start cfg d a fresh).ops) = .valid i ∧
+    get (run d (start cfg d a fresh).ops) bfN = some (bridgeText cfg i) ∧
+    ∀ fresh' : JS, (start cfg (run d (start cfg d a fresh).ops) Args.empty fresh').out = .ok i := by
+  have key : recover (run d (start cfg d a fresh).ops) = .valid i ∧
+      get (run d (start cfg d a fresh).ops) bfN = some (bridgeText cfg i) := by
+    unfold start at hok ⊢
+    cases hp : a.priv <;> cases hn : a.nodeID <;> cases hs : a.seed <;>
+      simp only [hp, hn, hs] at hok ⊢
+    · cases hc : get d Consts.Obfs4.stateFile with
+      | none =>
+        simp only [hc] at hok ⊢
+        exact finish_ok_inv cfg d _ fresh a.iat i hok hfp
+      | some c =>
+        simp only [hc] at hok ⊢
+        cases hl : loadJS c with
+        | none => simp only [hl] at hok; cases hok
+        | some js =>
+          simp only [hl] at hok ⊢
+          exact finish_ok_inv cfg d [] js a.iat i hok (loadJS_noq c js hl)
+    all_goals first
+      | (cases hok; done)
+      | exact finish_ok_inv cfg d [] _ a.iat i hok (by simp)
+  refine ⟨key.1, key.2, fun fresh' => ?_⟩
+  have := (start_of_valid cfg _ i Args.empty fresh' key.1 ⟨rfl, rfl, rfl⟩).1
+  rw [this]; rfl
+
+/-- instance: the FIRST start on an empty directory with an `iat-mode=2` argument presents the
+    generated identity with IAT mode 2 -/
+example : (start (exCfg true) [] exArgs exFresh).out
+    = .ok ⟨List.replicate 20 0x55, List.replicate 32 0x66, List.replicate 24 0x88, 2⟩ := by decide
+
 /-! ### refused starts -/
 
 /-- **a refused start changes nothing**: when the directory holds a state file (readable or
